@@ -5,7 +5,7 @@
 //! interleaved with other events → 1..=4 MIDAS files (.mid / .mid.lz4, LE/BE, 16/32/32a-bit
 //! banks) → argv in seeded order → the REAL binary (real midasio, lz4, csv, clap).
 
-use crate::procsim::{csv_body, csv_tail, run_binary, write_file, RunEnv, Scratch};
+use crate::procsim::{csv_rows, csv_tail, run_binary, write_file, RunEnv, Scratch};
 use daqmodel::enc::{cb_marker_word, cb_scaler_block, cb_timestamp_word, CB_SCALER_TAG};
 use daqmodel::midas::{Bank, BankWidth, Event, MidasFile};
 use serde::{Deserialize, Serialize};
@@ -616,11 +616,11 @@ impl Check for C20Check {
                         });
                         continue;
                     };
-                    let Some((_hdr, rows)) = csv_body(&csv) else {
+                    let Some(rows) = csv_rows(&csv, &["board", "channel", "leading_edge", "chronobox_time"]) else {
                         viol.push(Violation {
                             invariant: "C20.I2-csv-malformed".into(),
                             signature: format!("malformed:{fault_kind}"),
-                            detail: "CSV lacks the two comment lines".into(),
+                            detail: "a documented column is missing or a row is ragged".into(),
                             narrowed,
                         });
                         continue;
